@@ -77,19 +77,17 @@ func (s *c14State) wit(call string) c14Witness {
 	return c14Witness{Bounds: [2]int64{s.f.Min, s.f.Max}, Depth: s.depth, Mode: s.mode, History: s.history(), LowOpN: s.lowOpN, Reopen: s.reopen, Log: append([]string(nil), lg...), Call: call}
 }
 
-// fail: reads do not disturb state, so the case continues; the signature puts
-// the write-history class first (a corrupted store explains every later read).
+// fail: reads do not disturb state, so the case continues; the signature is the
+// input class of the call, suffixed with the write-history class of the case.
 func (s *c14State) fail(class, msg, call string) {
 	sig := class
+	if s.reopen && uint64(s.f.Max-s.f.Min) >= 1<<62 {
+		// configuration class: after a restart the empty field stores values relative to
+		// Base=Min at bit depth 63; the base arithmetic (Base -/+ 2^63) overflows
+		sig = "restarted-empty-field-63-bit-range/" + strings.SplitN(class, "/", 2)[0]
+	}
 	if h := s.history(); h != "clean" {
-		grp := strings.SplitN(strings.SplitN(class, "/", 2)[0], "#", 2)[0]
-		switch {
-		case strings.HasPrefix(grp, "pql-"):
-			grp = "pql-agg"
-		case strings.HasPrefix(grp, "goapi-"):
-			grp = "goapi"
-		}
-		sig = "hist:" + h + "/" + grp
+		sig += "@" + h // suffix: the input class of the call stays the prefix
 	}
 	esrvFail(s.r, sig, s.id, msg, s.wit(call))
 }
@@ -207,7 +205,10 @@ func (s *c14State) predClass(op string, p1, p2 int64, loEq, hiEq bool) string {
 
 // beyond: predicate at/beyond the edge of the range representable at the
 // field's current bit depth (relative to the storage base).
-func (s *c14State) beyond(p int64) bool {
+func (s *c14State) beyond(p int64) bool { return mBeyond(s.depthNow(), p-s.base()) }
+
+// depthNow models the field's bit depth.
+func (s *c14State) depthNow() uint {
 	d := uint(0)
 	if s.reopen {
 		// a restarted empty field is sized for its whole range (Field.loadMeta)
@@ -220,7 +221,7 @@ func (s *c14State) beyond(p int64) bool {
 			d = b
 		}
 	}
-	return mBeyond(d, p-s.base())
+	return d
 }
 
 func (s *c14State) checkRange(n *qNode) { s.checkRanges([]*qNode{n}) }
@@ -398,9 +399,12 @@ func (s *c14State) aggClass(api, kind string, filter mSet) string {
 		}
 		return api + "-sum/plain"
 	}
+	if (kind == "Min" || kind == "Max") && s.depthNow() == 0 {
+		return api + "-minmax/bit-depth-0" // every stored value equals the storage base
+	}
 	if api == "goapi" {
-		if kind == "Max" && neg && !pos {
-			return "goapi-max/all-negative"
+		if kind == "Max" && (neg || pos) && s.m.agg(s.f, kind, filter).Val-s.base() <= 0 {
+			return "goapi-max/nonpositive-maximum"
 		}
 		if len(shards) > 1 {
 			return "goapi-minmax/multi-shard"
